@@ -149,3 +149,5 @@ func Holds(mu any) int           { return 2 }
 func Dump(x any)                 { fmt.Printf("vf.Dump: %v\n", x) }
 
 func SymbolicTime() {}
+
+func TLSModel(handshakeOK bool, negotiatedProtocol string) {}
